@@ -20,6 +20,7 @@ RULE = (
     "(vf/ref/overlap.py) finds one; the rule must terminate on cyclic spreads. distinct = distinct documents judged, split by verdict"
 )
 ASSUMPTIONS = [
+    "argument identity across literal forms of one value (block string vs quoted string) is outside the alphabet: the specification says 'identical arguments' without defining it across forms; the rule (like graphql-js) compares printed forms and reports a conflict, the reference compares values",
     "all documents satisfy FieldsOnCorrectType so that the specification's algorithm is defined",
     "reference least-fixed-point implementation of the spec text (vf/ref/overlap.py)",
 ]
@@ -71,8 +72,27 @@ ENVS = [
 FTYPE["H2"] = "Cat"
 
 
+# argument-equality family: every ordered pair of argument lists for the same field under one response name, in three positions
+ARG_FORMS = [
+    "", "(i: 1)", "(i: 2)", "(i: 1, o: null)", "(o: null, i: 1)", "(i: null)", "(o: {p: 1, q: 2})", "(o: {q: 2, p: 1})", "(o: {p: 2, q: 1})",
+    # keys that differ only in case, keys with numbers (natural vs lexicographic order), many keys
+    "(o: {p: 1, P: 2})", "(o: {P: 2, p: 1})", "(o: {p: 2, P: 1})", "(o: {a1: 1, a10: 2, a2: 3})", "(o: {a2: 3, a10: 2, a1: 1})", "(o: {a10: 2, a1: 1, a2: 3})",
+    "(o: {a1: 1, A1: 2, a01: 3})", "(o: {a01: 3, A1: 2, a1: 1})", "(o: {a1: 2, A1: 1, a01: 3})",
+    "(o: {p: {q: 1, r: 2}})", "(o: {p: {r: 2, q: 1}})", "(o: {p: [1, 2]})", "(o: {p: [2, 1]})", "(o: {p: [{x: 1, X: 2}]})", "(o: {p: [{X: 2, x: 1}]})",
+    "(i: $v)", "(i: $w)", "(o: {p: $v})", "(o: {p: $w})", '(o: {p: "1"})', "(o: {p: 1.0})", "(o: {p: 1})", "(o: {p: true})", "(o: {p: E})", '(o: {p: "E"})',
+    "(o: {p: null})", "(o: {})", "(o: [])", "(o: [{p: 1, q: 2}])", "(o: [{q: 2, p: 1}])", "(o: [[{q: 2, p: 1}]])",
+]
+ARG_SHAPES = [
+    "query ($v: Int, $w: Int) { dog { r: a%s r: a%s } }",
+    "query ($v: Int, $w: Int) { dog { r: a%s ...F } } fragment F on Dog { r: a%s }",
+    "query ($v: Int, $w: Int) { pet { ... on Dog { same { ... on Dog { r: a%s } } } ... on Cat { same { ... on Dog { r: a%s } } } } }",
+]
+
+
 def shards(tier):
     out = []
+    for i in range(len(ARG_FORMS)):
+        out.append(("args", (i, 0)))
     for e in range(len(ENVS)):
         for d1 in range(len(DOG_ITEMS)):
             out.append(("env", (e, d1)))
@@ -126,10 +146,20 @@ def make_doc(env, d_items, c, p, reverse=False):
 def run_shard(shard, tier):
     res = Result()
     _k, (e, d1) = shard
-    env = ENVS[e]
 
     def viol(sig, src, summary):
         res.violation(sig, f"{src}: {summary}", {"source": src})
+
+    if _k == "args":
+        for b in ARG_FORMS:
+            for shape in ARG_SHAPES:
+                res.states += 1
+                res.transitions += 1
+                judge(shape % (ARG_FORMS[e], b), res, viol)
+        if e == 0:
+            res.sample({"document": ARG_SHAPES[1] % (ARG_FORMS[9], ARG_FORMS[10])})
+        return res
+    env = ENVS[e]
 
     n = 0
     for d2 in range(d1 + 1, len(DOG_ITEMS)):
